@@ -19,7 +19,7 @@ ROWS = {
  "wide_basis_quick": dict(acts=S("FnBasis"), breaks="BreaksW", degs="DegsW", maxnpts=11, wts='"none", "gen"'),
  "wide_insert_quick": dict(acts=S("CvKnotInsert"), breaks="BreaksW", degs="DegsW", maxnpts=11, wts='"none", "gen"', nodesize=1, props=["InsertPreserves"]),
  "wide_elevate_quick": dict(acts=S("CvDegreeIncrease"), breaks="BreaksW", degs="DegsW", maxnpts=11, wts='"none", "gen"', props=["ElevatePreserves"]),
- "wide_split_quick": dict(acts=S("CvSplit"), breaks="BreaksW", degs="DegsW", maxnpts=11, wts='"none", "gen"', nodesize=1, props=["SplitRestricts"]),
+ "wide_split_quick": dict(acts=S("CvSplit"), breaks="BreaksW", degs="DegsW", maxnpts=11, wts='"none"', nodesize=1, props=["SplitRestricts"]),
  "wide_calc_quick": dict(acts=S("CvDerivate", "CvIntegrate"), breaks="BreaksW", degs="DegsW", maxnpts=11, wts='"none"'),
  "basis_thorough": dict(acts=S("FnBasis"), wts='"none", "gen", "gen2"', degs="Degs4", maxnpts=8, breaks="BreaksT"),
  "insert_quick": dict(acts=S("CvKnotInsert"), props=["InsertPreserves"]),
